@@ -122,6 +122,9 @@ def configs(tier, seed):
             out.append({'model': model, 'm': 2, 'n': 2, 'nx': 3, 'ny': 3, 'variant': 'fint', 'group': 'fint-gradient-3x3:%s' % model, 'timeout_ms': 300000})
             out.append({'model': model, 'm': 2, 'n': 2, 'nx': 2, 'ny': 2, 'variant': 'stencil', 'group': 'stencil-2x2:%s' % model, 'timeout_ms': 600000})
             out.append({'model': model, 'm': 3, 'n': 3, 'nx': 2, 'ny': 2, 'variant': 'stencil', 'group': 'stencil-2x2:%s' % model, 'timeout_ms': 900000})
+            out.append({'model': model, 'm': 4, 'n': 4, 'nx': 1, 'ny': 1, 'variant': 'fint', 'group': 'fint-gradient:%s' % model, 'timeout_ms': 600000})
+            out.append({'model': model, 'm': 4, 'n': 3, 'nx': 2, 'ny': 2, 'variant': 'kT', 'group': 'kT-jacobian-2x2:%s' % model, 'timeout_ms': 900000})
+            out.append({'model': model, 'm': 6, 'n': 1, 'nx': 3, 'ny': 1, 'variant': 'fint', 'state': 'bending', 'group': 'fint-gradient-3x1:%s' % model, 'timeout_ms': 600000})
     out[0]['canary'] = True
     out[1]['canary'] = True
     out[-1]['canary'] = True
